@@ -1006,7 +1006,8 @@ def ext(ctx):
     ctx.rule = ("Specifications of behaviour the listed properties do not speak about, bound to the code in the same way "
                 "(every transition of the model replayed on the real objects): Versions.tla - version strings and "
                 "matching, the client-version registry, the version provider, the namespace provider, sequentially; "
-                "VdrApi.tla - VDR.Accept / Update / Deactivate / Close. A disagreement is reported as NONCONFORMANCE with "
+                "VdrApi.tla - VDR.Accept / Update / Deactivate / Close; ClientSend.tla - how the Sidetree client delivers a "
+                "request (endpoint discovery with / without cache, one retry, bearer tokens) against local HTTP nodes. A disagreement is reported as NONCONFORMANCE with "
                 "the extension specification, not as a violation of a property.")
     deep = ctx.tier != "quick"
     _, vs = ctx.tlc_pipe("MC_Versions.tla", "MC_Versions.cfg", ["versions-replay"], workers=4,
@@ -1023,6 +1024,14 @@ def ext(ctx):
     _, va = ctx.tlc_pipe("MC_VdrApi.tla", "MC_VdrApi.cfg", ["vdrapi-replay"], workers=2,
                          label="VdrApi.tla: Accept (method x hint x DID parts), Update / Deactivate / Close, fresh and closed VDR")
     ctx.negctl_replay(["vdrapi-replay"], va["_first_edge"], vwrong)
+    _, cs = ctx.tlc_pipe("MC_ClientSend.tla", "MC_ClientSend.cfg", ["clientsend-replay"], workers=2,
+                         label="ClientSend.tla: discovery (cached / fresh) x node (200 / 500 / absent / error / empty list) x "
+                               "token (none / static / provider / both / failing provider) against local HTTP nodes")
+
+    def cwrong(rec):
+        rec["res"] = "ok" if rec["res"] != "ok" else "err"
+
+    ctx.negctl_replay(["clientsend-replay"], cs["_first_edge"], cwrong)
     if deep:
         ctx.tlaps_check("VersionsProofs.tla", needs=("Versions.tla",), abstract_ops=False,
                         label="TLAPS: version matching is an equivalence on all strings and looks at two parts; the "
